@@ -156,14 +156,15 @@ bool CGraph::HasLoop() const {
 }
 
 bool CGraph::IsReachableFrom(const EntityUID dest, const EntityUID source) const {
-  if (ConnectionExists(source, dest)) {
-    return true;
-  } else if (source == dest) {
+  if (!Contains(source) || !Contains(dest)) {
     return false;
-  } else {
-    const auto reachables = ExpandOutputs({ source });
-    return std::find(begin(reachables), end(reachables), dest) != end(reachables);
   }
+  // Note: a path has at least one edge, so the search starts from the direct outputs of source
+  UnorderedItems successors{};
+  for (const auto child : graph[IndexFor(source)].outputs) {
+    successors.emplace(graph[child].uid);
+  }
+  return ExpandOutputs(successors).contains(dest);
 }
 
 CGraph::UnorderedItems CGraph::ExpandOutputs(const UnorderedItems& input) const {
